@@ -18,6 +18,9 @@ finished; the codec contract (decode ∘ encode-stream = concatenation, for the 
 codecs) is what the harness checks by decoding, and what `Codec` states for the theorems.
 Shares `Cfg`, `shouldSkipStatus`, `shouldSkipContentType` and the byte-string helpers with
 `CompressAsIs` (those parts of the code did not change).  Core Lean only.
+
+Constants that mirror literals of the Go source are named defs (`@[reducible]`), tied to the regenerated
+`Gen/Consts.lean` by `Tie/Consts*.lean` (added by the owner of extract/; behaviour unchanged).
 -/
 namespace Rivaas.Compress
 open Rivaas.Http
@@ -170,6 +173,9 @@ def CW.restoreHeader (w : CW) : CW :=
   | none => w
   | some h => { w with base := { w.base with live := h }, committed := none }
 
+/-- `const sniffLen = 512` -/
+@[reducible] def sniffLen : Nat := 512
+
 /-- start(pending, compress): the decision; returns the error of the write it performs -/
 def CW.start (sn : Sniff) (w : CW) (pending : Bytes) (compress : Bool) : CW × Err :=
   let w := w.restoreHeader
@@ -184,7 +190,7 @@ def CW.start (sn : Sniff) (w : CW) (pending : Bytes) (compress : Bool) : CW × E
     else (w, .ok)
   else
     let live := w.base.live
-    let live := if !hhas live kCT && !pending.isEmpty then hset live kCT [sn (pending.take 512)] else live
+    let live := if !hhas live kCT && !pending.isEmpty then hset live kCT [sn (pending.take sniffLen)] else live
     let w := ({ w with base := { w.base with live := live } }).initCompression
     if !pending.isEmpty then ({ w with evs := w.evs ++ [some pending] }, .ok) else (w, .ok)
 
@@ -201,7 +207,7 @@ def CW.holdBack (w : CW) : Nat :=
   let haveType := match w.committed with
     | some h => hhas h kCT
     | none => false
-  if !haveType && w.thr < 512 then 512 else w.thr
+  if !haveType && w.thr < sniffLen then sniffLen else w.thr
 
 def CW.implicitOK (w : CW) : CW :=
   if w.status == 0 && !w.headersSent then w.writeHeader 200 else w
